@@ -437,7 +437,7 @@ def run(ctx):
     for thm in ("C13_src_euclidean", "C13_src_manhattan", "C13_src_chebyshev", "C13_src_hamming", "C13_src_jaccard", "C13_src_cosine",
                 "C13_src_correlation", "C13_src_correlation_model", "C13_src_ll_dirichlet", "C13_src_ll_dirichlet_counts",
                 "C13_src_matching", "C13_src_kulsinski", "C13_src_rogers_tanimoto", "C13_src_sokal_michener", "C13_src_dice", "C13_src_sokal_sneath",
-                "C13_src_minkowski", "C13_src_bray_curtis", "C13_src_russellrao"):
+                "C13_src_minkowski", "C13_src_bray_curtis", "C13_src_russellrao", "C13_src_hellinger", "C13_src_canberra"):
         ob = "link:sparse:" + thm
         ctx.obligations.append(ob)
         bad = [a for a in lres.axioms.get(thm, []) if a not in link.coqrun.ALLOWED_AXIOMS and not ctx._primitive(a)]
